@@ -2,53 +2,80 @@
 (* Growth of HomeRelay.tla (C26): the RelayActor and the ActiveRelayActors around the
    HomeRelayWatch, with the messages between them
    (iroh/src/socket/transports/relay/actor.rs).  set_status is atomic here (the design C26
-   requires); the question this module answers is what the advertised *status* is worth.
+   requires and the code now has).
 
      NetworkChange(p)   RelayActor::on_network_change(report.preferred_relay = p):
-                        prev = my_relay.get(); same URL -> nothing; Some(p) -> my_relay.set(p, Connecting)
-                        and SetHomeRelay(u = p) to every active actor; None -> my_relay.clear()
-                        (no message: the actors keep their is_home_relay flag)
+                        prev = my_relay.get(); same URL -> nothing; Some(p) -> my_relay.set(p, Connecting),
+                        SetHomeRelay(u = p) to every existing ActiveRelayActor, and the actor of p is
+                        started if it does not exist (it is told SetHomeRelay(true) right away);
+                        None -> my_relay.clear() (no message: the actors keep their is_home_relay flag)
      Recv(u)            ActiveRelayActor(u) takes SetHomeRelay(b) from its inbox: is_home_relay = b; in
-                        run_connected and b: my_relay.set_status(u, Connected)
+                        run_connected and b: my_relay.set_status(u, Connected) -- URL-guarded, so a
+                        promotion handled late (another home relay was chosen meanwhile) publishes nothing
      Dialed(u)          run_once: dialing succeeded: set_status(u, Connected)
      Lost(u)            run: the connection failed: set_status(u, Disconnected{err}), then back-off
      Redial(u)          run_once starts again: set_status(u, Connecting)
 
-   conn[u] is the actor's real connection state.  HomeIsChosen is inherited; StatusFresh says
-   that once the messages are delivered the advertised state of the chosen relay is its
-   actor's real state (except that a relay chosen while its actor is backing off shows
-   Connecting until the next attempt). *)
-EXTENDS Naturals, Sequences, FiniteSets, TLC
-CONSTANTS Urls, NoUrl, MaxChanges, MaxSteps
-VARIABLES home, chosen, nchanges, inbox, isHome, conn, nsteps
-vars == <<home, chosen, nchanges, inbox, isHome, conn, nsteps>>
+   Named deviation PromotedSetsUrl = TRUE ("C26_promotion_publishes_url"): on SetHomeRelay(true) the
+   connected actor publishes with my_relay.set(u, Connected) instead of the guarded set_status;
+   refuted by NetworkChange(b); NetworkChange(c); Recv(b) (HomeIsChosen).
+
+   conn[u] is the actor's real connection state, `alive` the actors that exist.  `hist` is the word
+   of NetworkChange / Recv steps for the generator; harness/src/bin/vh_netrep.rs (c26sys) drives a
+   real RelayActor against in-process relay servers along each word (a pause point holds an
+   ActiveRelayActor before it handles SetHomeRelay) and Trace_HomeRelaySystem.tla validates what
+   really happened. *)
+EXTENDS Naturals, Sequences, FiniteSets, TLC, Json
+CONSTANTS Urls, NoUrl, MaxChanges, MaxSteps,
+          PromotedSetsUrl,   \* FALSE: the code; TRUE: the deviation above
+          StartHome,         \* generator: start with this relay as connected home relay (NoUrl: empty system)
+          StartOthers,       \* generator: further relays already connected (not home)
+          LateOnly,          \* generator: only words in which a connected actor handles its promotion late
+          KeepHist
+VARIABLES home, chosen, nchanges, inbox, isHome, conn, nsteps, alive,
+          late,     \* ghost: a connected actor handled SetHomeRelay(true) after another home relay was chosen
+          hist
+vars == <<home, chosen, nchanges, inbox, isHome, conn, nsteps, alive, late, hist>>
 
 None == [url |-> NoUrl, state |-> "none"]
-Init == /\ home = None /\ chosen = NoUrl /\ nchanges = 0 /\ nsteps = 0
-        /\ inbox = [u \in Urls |-> <<>>] /\ isHome = [u \in Urls |-> FALSE]
-        /\ conn = [u \in Urls |-> "Connecting"]
+Log(op, u) == hist' = IF KeepHist THEN Append(hist, [op |-> op, url |-> u]) ELSE hist
+
+Init == /\ nchanges = 0 /\ nsteps = 0 /\ hist = <<>> /\ late = FALSE
+        /\ inbox = [u \in Urls |-> <<>>]
+        /\ IF StartHome = NoUrl
+             THEN /\ home = None /\ chosen = NoUrl /\ alive = {}
+                  /\ isHome = [u \in Urls |-> FALSE] /\ conn = [u \in Urls |-> "Connecting"]
+             ELSE /\ home = [url |-> StartHome, state |-> "Connected"] /\ chosen = StartHome
+                  /\ alive = {StartHome} \cup StartOthers
+                  /\ isHome = [u \in Urls |-> u = StartHome]
+                  /\ conn = [u \in Urls |-> IF u \in {StartHome} \cup StartOthers THEN "Connected" ELSE "Connecting"]
 
 \* HomeRelayWatch::set_status, atomic
-SetStatus(u, s) == home' = IF home.url = u THEN [url |-> u, state |-> s] ELSE home
+StatusResult(u, s) == IF home.url = u THEN [url |-> u, state |-> s] ELSE home
 
 NetworkChange(p) ==
   /\ nchanges < MaxChanges /\ nchanges' = nchanges + 1
-  /\ IF p = home.url THEN UNCHANGED <<home, chosen, inbox>>
+  /\ KeepHist => p # home.url        \* the generator leaves out reports that change nothing
+  /\ IF p = home.url THEN UNCHANGED <<home, chosen, inbox, alive>>
      ELSE IF p # NoUrl
        THEN /\ home' = [url |-> p, state |-> "Connecting"] /\ chosen' = p
-            /\ inbox' = [u \in Urls |-> Append(inbox[u], u = p)]
-       ELSE home' = None /\ chosen' = NoUrl /\ UNCHANGED inbox
-  /\ UNCHANGED <<isHome, conn, nsteps>>
+            /\ alive' = alive \cup {p}
+            /\ inbox' = [u \in Urls |-> IF u \in alive' THEN Append(inbox[u], u = p) ELSE inbox[u]]
+       ELSE home' = None /\ chosen' = NoUrl /\ UNCHANGED <<inbox, alive>>
+  /\ UNCHANGED <<isHome, conn, nsteps, late>> /\ Log("nc", p)
 
 Recv(u) == /\ inbox[u] # <<>>
            /\ isHome' = [isHome EXCEPT ![u] = Head(inbox[u])]
            /\ inbox' = [inbox EXCEPT ![u] = Tail(@)]
-           /\ IF Head(inbox[u]) /\ conn[u] = "Connected" THEN SetStatus(u, "Connected") ELSE UNCHANGED home
-           /\ UNCHANGED <<chosen, nchanges, conn, nsteps>>
+           /\ home' = IF Head(inbox[u]) /\ conn[u] = "Connected"
+                        THEN (IF PromotedSetsUrl THEN [url |-> u, state |-> "Connected"] ELSE StatusResult(u, "Connected"))
+                        ELSE home
+           /\ late' = (late \/ (Head(inbox[u]) /\ conn[u] = "Connected" /\ chosen # u))
+           /\ UNCHANGED <<chosen, nchanges, conn, nsteps, alive>> /\ Log("recv", u)
 
-Step(u, from, to) == /\ nsteps < MaxSteps /\ nsteps' = nsteps + 1 /\ conn[u] = from
-                     /\ conn' = [conn EXCEPT ![u] = to] /\ SetStatus(u, to)
-                     /\ UNCHANGED <<chosen, nchanges, inbox, isHome>>
+Step(u, from, to) == /\ nsteps < MaxSteps /\ nsteps' = nsteps + 1 /\ u \in alive /\ conn[u] = from
+                     /\ conn' = [conn EXCEPT ![u] = to] /\ home' = StatusResult(u, to)
+                     /\ UNCHANGED <<chosen, nchanges, inbox, isHome, alive, late>> /\ Log(to, u)
 Dialed(u) == Step(u, "Connecting", "Connected")
 Lost(u)   == Step(u, "Connected", "Disconnected") \/ Step(u, "Connecting", "Disconnected")
 Redial(u) == Step(u, "Disconnected", "Connecting")
@@ -59,16 +86,29 @@ Next == \/ \E p \in Urls \cup {NoUrl} : NetworkChange(p)
         \/ \E u \in Urls : Lost(u)
         \/ \E u \in Urls : Redial(u)
 Spec == Init /\ [][Next]_vars
+\* messages only (the word generator: the actors' connections stay as they are)
+NextMsgs == \/ \E p \in Urls \cup {NoUrl} : NetworkChange(p)
+            \/ \E u \in Urls : Recv(u)
+SpecMsgs == Init /\ [][NextMsgs]_vars
 
+---------------------------------------------------------------------------
+\* C26: the advertised home relay is always the relay most recently chosen
 HomeIsChosen == home.url = chosen
+\* once the messages are delivered the advertised state of the chosen relay is its actor's real
+\* state (a relay chosen while its actor is backing off shows Connecting until the next attempt)
 StatusFresh ==
   \A u \in Urls : (chosen = u /\ inbox[u] = <<>>) =>
       \/ home.state = conn[u]
       \/ conn[u] = "Disconnected" /\ home.state = "Connecting"
-\* at most one actor believes it is the home relay once all messages are delivered
+\* at most one actor believes it is the home relay once all messages are delivered ...
 OneHomeBelief ==
   (\A u \in Urls : inbox[u] = <<>>) => Cardinality({u \in Urls : isHome[u]}) <= 1
 \* ... and it is the chosen one, unless the home relay was cleared
 BeliefMatchesChoice ==
   (\A u \in Urls : inbox[u] = <<>>) => \A u \in Urls : isHome[u] => (chosen = u \/ chosen = NoUrl)
+
+\* word generator: words with every message delivered and at least one relay change handled late
+Delivered == \A u \in Urls : inbox[u] = <<>>
+Emit == (KeepHist /\ hist # <<>> /\ Delivered /\ (late \/ ~LateOnly)) =>
+          PrintT(<<"REPLAY", ToJson([word |-> hist, final |-> home, chosen |-> chosen])>>)
 =============================================================================
